@@ -9,7 +9,7 @@ CONSTANTS
   SvcSizes <- MCSvc
   StartSize = 24
   Size <- MCSize
-  MaxCrash = 2
+  MaxCrash = 1
   MaxReads = 1
   MaxClose = 1
   AllowDesync = FALSE
